@@ -17,8 +17,8 @@ type Cond struct {
 // boolean) condition together with the successor taken when the normalised
 // condition holds and the one taken when it does not.
 type Branch struct {
-	Block      *ssa.BasicBlock
-	Cond       Cond      // comparison; Op==ILLEGAL means plain boolean value in X
+	Block       *ssa.BasicBlock
+	Cond        Cond // comparison; Op==ILLEGAL means plain boolean value in X
 	True, False *ssa.BasicBlock
 }
 
